@@ -42,8 +42,9 @@ int main(int argc, char** argv) {
 		if (shard == 0) {
 			uint64_t id = 0;
 			for (uint64_t a : bs) for (uint64_t b : bs) { uint64_t h = mulh(a, b) * 0x9E3779B97F4A7C15ull ^ (uint64_t)smulh((int64_t)a, (int64_t)b); h = h * 31 + rotr(a, (unsigned)(b & 63)); h = h * 31 + rotl(a, (unsigned)(b & 63)); rec("arith", id++, h); R.n["arith_pairs"]++; }
-			static const uint64_t limb[4] = { 0, 1, 0x80000000ull, 0xFFFFFFFFull };
-			for (int i = 0; i < 256; ++i) { uint64_t a = (limb[i & 3] << 32) | limb[(i >> 2) & 3], b = (limb[(i >> 4) & 3] << 32) | limb[(i >> 6) & 3]; rec("limbs", (uint64_t)i, mulh(a, b) ^ (uint64_t)smulh((int64_t)a, (int64_t)b) * 3); R.n["arith_pairs"]++; }
+			// all operand pairs built from 32-bit limbs of a boundary set: every carry pattern of a 32x32 -> 128 decomposition occurs
+			static const uint64_t limb[9] = { 0, 1, 2, 0x55555555ull, 0x7FFFFFFFull, 0x80000000ull, 0x80000001ull, 0xFFFFFFFEull, 0xFFFFFFFFull };
+			for (int i = 0; i < 6561; ++i) { uint64_t a = (limb[i % 9] << 32) | limb[(i / 9) % 9], b = (limb[(i / 81) % 9] << 32) | limb[(i / 729) % 9]; rec("limbs", (uint64_t)i, mulh(a, b) ^ (uint64_t)smulh((int64_t)a, (int64_t)b) * 3); R.n["arith_pairs"]++; }
 		}
 		// (2) programs on the interpreter
 		{
